@@ -2,7 +2,7 @@
    Model: Mvcc/Model.v ([step], [run cmds := fold_left step]); discipline and declarative
    specifications: Mvcc/Spec.v. Every statement is over ALL command sequences. *)
 From Verif Require Import Mvcc.Model Mvcc.Spec Mvcc.ProofsStore Mvcc.ProofsKey Mvcc.ProofsKstep Mvcc.ProofsShape
-     Mvcc.ProofsStep Mvcc.ProofsRead Mvcc.ProofsLate Mvcc.ProofsMarker Mvcc.ProofsIdem Mvcc.ProofsIdem2 Mvcc.ProofsIdem3 Mvcc.ProofsLockMono Mvcc.ProofsDef Mvcc.ProofsSeq.
+     Mvcc.ProofsStep Mvcc.ProofsRead Mvcc.ProofsLate Mvcc.ProofsMarker Mvcc.ProofsIdem Mvcc.ProofsIdem2 Mvcc.ProofsIdem3 Mvcc.ProofsLockMono Mvcc.ProofsDef Mvcc.ProofsSeq Mvcc.Deadlock Mvcc.ProofsDeadlock Mvcc.ProofsDeadlock2.
 
 (* ---- induction carriers *)
 (* unconditional: keys ascending, write records of every key strictly descending by commit ts *)
@@ -206,6 +206,34 @@ Theorem C12_commit_pess_lock_no_data : forall ks l s c t, is_pess l = true -> ~ 
 Proof. exact commit_pess_lock_no_data. Qed.
 Print Assumptions C12_commit_pess_lock_no_data.
 
+(* ---- the deadlock detector (state that survives across calls; Mvcc/Deadlock.v: [dstep], [drun]) *)
+(* the wait-for graph stays acyclic over every command sequence ... *)
+Theorem C12_deadlock_graph_acyclic : forall cmds, acyclic (snd (drun cmds)).
+Proof. exact drun_acyclic. Qed.
+Print Assumptions C12_deadlock_graph_acyclic.
+
+(* ... hence doDetect - a DFS WITHOUT a visited set - terminates: recursion depth |waitForMap|+1 always suffices *)
+Theorem C12_deadlock_detector_terminates : forall cmds s w k, snd (detect (snd (drun cmds)) s w k) <> VOutOfFuel.
+Proof. exact drun_detect_terminates. Qed.
+Print Assumptions C12_deadlock_detector_terminates.
+
+Theorem C12_deadlock_no_fuel_error : forall cmds r,
+  match snd (dstep (drun cmds) (PessLock r)) with RPessD es _ => no_fuel_err es | RD _ => True end.
+Proof. exact drun_no_fuel_error. Qed.
+Print Assumptions C12_deadlock_no_fuel_error.
+
+(* ... and its verdict is exactly reachability: Deadlock iff the lock holder (transitively) waits for the requester *)
+Theorem C12_deadlock_verdict_is_reachability : forall cmds s w k,
+  let d := snd (drun cmds) in
+  (forall wk, snd (detect d s w k) = VDeadlock wk -> reach d w s) /\ (snd (detect d s w k) = VWait -> ~ reach d w s).
+Proof. exact drun_detect_spec. Qed.
+Print Assumptions C12_deadlock_verdict_is_reachability.
+
+(* the store of the layered model is the store of [run]: every theorem above about [run cmds] holds with the detector *)
+Theorem C12_deadlock_store_refines : forall cmds, fst (drun cmds) = run cmds.
+Proof. exact drun_store. Qed.
+Print Assumptions C12_deadlock_store_refines.
+
 (* ------------------------------------------------------------------ non-vacuity *)
 Definition T (r : N) : N := r * 262144.
 Definition put (k s : N) : cmd := Prewrite [mkMut MPut k (16 + k) AsNone false] 1 (T s) 0 1 0 false.
@@ -270,4 +298,26 @@ Example ex_prewrite_at_max_ts_not_idempotent :
   let st := run [put 1 1; Commit [1] (T 1) (T 2); Prewrite [mkMut MDel 1 0 AsNone false] 1 (T 3) 0 1 0 false; Commit [1] (T 3) max_ts] in
   let c := Prewrite [mkMut MInsert 1 7 AsNone false] 1 max_ts 0 1 0 false in
   snd (step st c) = RErrs [None] /\ snd (step (fst (step st c)) c) = RErrs [Some (EAlreadyExist 1)].
+Proof. vm_compute. split; reflexivity. Qed.
+
+(* ---- deadlock detector *)
+Definition plk (s : N) (k : N) : cmd := PessLock (mkPessReq [(k, false)] 1 s (T 9) 3 0 false false false false true).
+Example ex_deadlock_two_cycle :
+  snd (dstep (drun [plk (T 1) 1; plk (T 2) 2; plk (T 1) 2]) (plk (T 2) 1))
+  = RPessD [EDeadlock (T 1) 1 2] []
+  /\ snd (drun [plk (T 1) 1; plk (T 2) 2; plk (T 1) 2]) = [(T 1, [(T 2, 2)])].
+Proof. vm_compute. split; reflexivity. Qed.
+(* the waiter's batch rollback drops its edges: no deadlock any more *)
+Example ex_deadlock_cleared_by_rollback :
+  match snd (dstep (drun [plk (T 1) 1; plk (T 2) 2; plk (T 1) 2; Rollback [3] (T 1)]) (plk (T 2) 1)) with
+  | RPessD [EPlain (ELocked _ _)] [] => True | _ => False end.
+Proof. vm_compute. exact I. Qed.
+(* the code as it is: releasing the locks (pessimistic rollback) does not clear edges - a stale edge still closes a "cycle" *)
+Example ex_deadlock_stale_edge :
+  match snd (dstep (drun [plk (T 1) 1; plk (T 2) 2; plk (T 1) 2; PessRollback 0 0 [] (T 2) (T 9); plk (T 1) 2]) (plk (T 2) 1)) with
+  | RPessD [EDeadlock _ _ _] [] => True | _ => False end.
+Proof. vm_compute. exact I. Qed.
+(* acyclicity is what makes the DFS terminate: on a cyclic graph (unreachable by the theorem) the fuel runs out *)
+Example ex_cyclic_graph_runs_out_of_fuel :
+  do_detect 3 [(1, [(2, 5)]); (2, [(1, 5)])] 9 1 = None /\ do_detect 50 [(1, [(2, 5)]); (2, [(1, 5)])] 9 1 = None.
 Proof. vm_compute. split; reflexivity. Qed.
